@@ -153,8 +153,10 @@ func ReadFromWebVTT(i io.Reader) (o *Subtitles, err error) {
 			return
 		}
 
-		// Inside a cue every line up to the next empty line is cue text, even when it begins like another block
+		// Inside a cue every line up to the next empty line is cue text, even when it begins like another block; so it
+		// is inside a comment, except that a comment line may repeat the NOTE prefix
 		var inCue = blockName == webvttBlockNameText
+		var inBlock = inCue || blockName == webvttBlockNameComment
 
 		switch {
 		// Comment
@@ -176,7 +178,7 @@ func ReadFromWebVTT(i io.Reader) (o *Subtitles, err error) {
 			sa.WebVTTTags = []WebVTTTag{}
 
 		// Region
-		case !inCue && strings.HasPrefix(line, "Region: "):
+		case !inBlock && strings.HasPrefix(line, "Region: "):
 			// Add region styles
 			var r = &Region{InlineStyle: &StyleAttributes{}}
 			for _, part := range strings.Split(strings.TrimPrefix(line, "Region: "), " ") {
@@ -211,7 +213,7 @@ func ReadFromWebVTT(i io.Reader) (o *Subtitles, err error) {
 			// Add region
 			o.Regions[r.ID] = r
 		// Style
-		case !inCue && strings.HasPrefix(line, "STYLE"):
+		case !inBlock && strings.HasPrefix(line, "STYLE"):
 			blockName = webvttBlockNameStyle
 
 			if _, ok := o.Styles[webvttDefaultStyleID]; !ok {
@@ -302,7 +304,7 @@ func ReadFromWebVTT(i io.Reader) (o *Subtitles, err error) {
 			// Append item
 			o.Items = append(o.Items, item)
 
-		case strings.HasPrefix(line, webvttTimestampMapHeader):
+		case !inBlock && strings.HasPrefix(line, webvttTimestampMapHeader):
 			if len(item.Lines) > 0 {
 				err = errors.New("astisub: found timestamp map after processing subtitle items")
 				return
